@@ -5,8 +5,9 @@ C12 — model of the predicate fast paths of `condition/condition.go` (repaired 
 
 A compiled `fastCompare{field, op, numLit|strLit}` is represented by the comparison `Cmp` it was
 compiled from: `numLit` is `litNum c.lit` (for an integer literal the float64 nearest to it, which
-is what `strconv.ParseFloat` returns for a decimal integer). The compile-time guard of
-`tryFastCompare` on integer literals is `litFastOk` (see `Model/CondShape.lean` for the text side).
+is what `strconv.ParseFloat` returns for a decimal integer — possibly another integer). The value
+guard of `toFloat64Fast` is strict (`|x| < 2^53`): then `x` is its own image and no literal's image
+can coincide with it unless the literal is `x` itself (`Proofs/Cond.lean compareInt_round53`).
 
 `fastEvalOld`/`toFloat64FastOld` are the *unrepaired* conversions (snapshot d262363); they only
 serve the witness theorem `C12.guard_needed`.
@@ -41,12 +42,6 @@ def litNum : Lit → F64
   | .int n => F64.ofInt n
   | .flt x => x
   | .str _ => .nan            -- unused: `isString`
-
-/-- compile-time guard of `tryFastCompare`: an integer literal's float64 image lies strictly
-inside ±2^53 (so it is the literal itself) -/
-def litFastOk : Lit → Bool
-  | .int n => exactInt (round53 n)
-  | _ => true
 
 /-- the numeric branch of `fastCompare.eval` -/
 def fastNum (v : Val) (op : Op) (lit : Lit) : Option Bool :=
